@@ -29,9 +29,14 @@ package atree
 //@ ghost vidOf : fn(id SlabID) ValueID
 //@ ghost unw : fn(st ref) ref
 
+//@ # a value id is the 8 address bytes followed by the 8 index bytes of the root slab id; vidOf(id) names the [16]byte value with those bytes
+//@ ghost vidIs : fn(v ValueID, id SlabID) bool
+//@ axiom (forall v ValueID, id SlabID :: {vidIs(v, id)} vidIs(v, id) == (v[0] == id.address[0] && v[1] == id.address[1] && v[2] == id.address[2] && v[3] == id.address[3] && v[4] == id.address[4] && v[5] == id.address[5] && v[6] == id.address[6] && v[7] == id.address[7] && v[8] == id.index[0] && v[9] == id.index[1] && v[10] == id.index[2] && v[11] == id.index[3] && v[12] == id.index[4] && v[13] == id.index[5] && v[14] == id.index[6] && v[15] == id.index[7])) because "definition of vidIs: byte-wise agreement"
+//@ axiom (forall id SlabID :: {vidOf(id)} vidIs(vidOf(id), id)) because "definition of the ghost function vidOf"
+//@ axiom (forall v ValueID, id SlabID :: {vidIs(v, id)} vidIs(v, id) ==> v == vidOf(id)) because "a [16]byte value is determined by its 16 bytes (array extensionality)"
+
 //@ func slabIDToValueID(id) (v)  serves C11
-//@   trusted "byte-wise copy of address and index into the value id, abstracted as the ghost function vidOf"
-//@   ensures v == vidOf(id)
+//@   ensures vidIs(v, id) && v == vidOf(id)
 //@   pure
 
 //@ pred cvidDef(st Storable) = (st == nil ==> cvid(st) == emptyValueID) &&
